@@ -417,9 +417,9 @@ def tlc_families(ctx: Ctx, rep: Report, fams: list[dict]) -> list[dict]:
         sim, depth = f.pop("simulate", None), f.pop("depth", None)
         cfg = ctx.write_cfg(f"{name}.cfg", cfg_text(**f))
         extra = {"simulate": sim, "depth": depth or 80, "seed": ctx.seed} if sim else {}
-        return name, what, ctx.tlc("LinearLabelMC.tla", str(cfg), tag=name, workers=f.get("workers", 5), **extra)
+        return name, what, ctx.tlc("LinearLabelMC.tla", str(cfg), tag=name, workers=f.get("workers", 5), jvm=["-Xmx4g"], **extra)
 
-    with ThreadPoolExecutor(max_workers=len(fams)) as ex:
+    with ThreadPoolExecutor(max_workers=min(5, len(fams))) as ex:      # (each JVM is capped at 4 GB: several run side by side)
         results = list(ex.map(one, fams))
     out = []
     for name, what, res in results:
